@@ -453,7 +453,7 @@ def run(chk):
                 'sequences of depth 5 on <=3 ranks for the first configurations): H1-H3 and exact model traces; (b) grid reductions and figure blocks incl. a '
                 'plot-only rank; (c) the real driver for one step on 2-4 ranks under different policies; (d) random connection graphs (2-7 layouts, random names) '
                 'in interpreters with different string-hash seeds. non-trivial = more than one rank and at least one data-moving collective / graphs with >=4 connected layouts')
-    chk.proof_side(build=not getattr(chk, 'no_build', False))
+    chk.proof_side(build=not getattr(chk, 'no_build', False), extra_props=('C06Extra',))
     drv = common.LeanDriver('C06.lean')
     try:
         part_handlers(chk, drv)
